@@ -411,8 +411,21 @@ func emptyCall(c *emptyCell) (res error, bad error) {
 			}
 			m = reflect.ValueOf(mm)
 		}
+		if c.API == "extrakey" || c.API == "extrakeys" { // entries without any rule must not influence the ruled ones
+			extra := []string{"u1", "u2"}
+			if c.API == "extrakey" {
+				extra = extra[:1]
+			}
+			for i, k := range extra {
+				if c.Carrier == "map" {
+					m.SetMapIndex(reflect.ValueOf(k), reflect.Zero(m.Type().Elem()))
+				} else {
+					m.SetMapIndex(reflect.ValueOf(k), reflect.ValueOf([]interface{}{7, "x"}[i]))
+				}
+			}
+		}
 		switch c.API {
-		case "", "canon":
+		case "", "canon", "extrakey", "extrakeys":
 			return valid.Map(m.Interface(), rm), nil
 		case "sliceroot":
 			sl := reflect.MakeSlice(reflect.SliceOf(m.Type()), 1, 1)
